@@ -386,7 +386,7 @@ pub enum Op {
     Cancel,
     Supersede,
     ApplySignature(u8),
-    /// A proof for a row that is already Proved is stored again (`store_proved_transaction` with a
+    /// A proof for a row that is already Proved (or already Broadcast / Mined) is stored again (`store_proved_transaction` with a
     /// second `ProvedTransaction` for the same row): a second prover that was started from a state
     /// in which the row was still Signed (the prove functions refuse any other state) finishes late,
     /// e.g. after a slow first prover was given up on and the Prove step was served again. Neither
@@ -715,7 +715,9 @@ impl<'a> Model<'a> {
             }
         }
         for i in 0..N {
-            if matches!(txs[i].state(), MigrationTxState::Proved) {
+            // A late second proof can land on a row that is Proved, or that has meanwhile been
+            // broadcast or mined.
+            if rank(&txs[i].state()) >= 2 {
                 out.push(Op::ReProve(i as u8));
             }
         }
@@ -836,8 +838,8 @@ impl<'a> Model<'a> {
             }
             Op::ReProve(i) => {
                 let i = *i as usize;
-                if !matches!(pre.transactions()[i].state(), MigrationTxState::Proved) {
-                    return Err(Viol::new("machinery", "ReProve on a row that is not Proved"));
+                if rank(&pre.transactions()[i].state()) < 2 {
+                    return Err(Viol::new("machinery", "ReProve on a row that was never proved"));
                 }
                 let mut state = pre.clone();
                 let mut store = Scripted::new(Some(state.clone()), env.tip, vec![], Oracle::AllOk);
@@ -846,7 +848,11 @@ impl<'a> Model<'a> {
                 if store.stored.as_ref() != Some(&state) {
                     return Err(Viol::new("persist:store_proved-left-store-behind", "store_proved_transaction did not persist the state it returned"));
                 }
-                self.outcome(if pre.transactions()[i].broadcast_failure_at().is_some() { "consumer:proof-stored-again-under-report" } else { "consumer:proof-stored-again" });
+                self.outcome(&if pre.transactions()[i].broadcast_failure_at().is_some() {
+                    "consumer:proof-stored-again-under-report".to_string()
+                } else {
+                    format!("consumer:proof-stored-again-on-{}", state_name(&pre.transactions()[i].state()))
+                });
                 state
             }
             Op::ApplySignature(i) => {
